@@ -14,3 +14,4 @@ import Xrfmv.Props.C14
 #print axioms Xrfmv.Props.C14.root_squares_back_diag
 #print axioms Xrfmv.Props.C14.centred_per_batch_depends_on_partition
 #print axioms Xrfmv.Props.C14.all_points_used
+#print axioms Xrfmv.Props.C14.normalised_max_with_jitter
